@@ -52,6 +52,16 @@ def atom_facts(cond, truth):
                 if p:
                     nonnull = (e["op"] == "!=") == t
                     out.add(("eng:" + p) if nonnull else ("dis:" + p))
+        # n != 0 / n == 0 on a plain integer: the same fact as `if (n)` / `if (!n)`
+        for a, b in ((l, r), (r, l)):
+            if isinstance(b, dict) and b.get("k") == "lit" and not b.get("null") and not b.get("str") and X.const_val(b) == 0 \
+                    and isinstance(a, dict) and a.get("k") in ("ref", "member"):
+                ty = (a.get("ty") or "").replace("const ", "")
+                if ty in ("int", "unsigned int", "uint16_t", "uint32_t", "uint64_t", "size_t", "uint8_t", "unsigned long", "long"):
+                    p = X.path(a)
+                    if p:
+                        nonzero = (e["op"] == "!=") == t
+                        out.add(("eng:" + p) if nonzero else ("dis:" + p))
         # x == NAMED_CONSTANT (enumerator / constexpr global): value facts
         for a, b in ((l, r), (r, l)):
             if isinstance(b, dict) and b.get("k") == "ref" and b.get("kind") in ("global", "enumerator") and "cv" in b:
@@ -433,6 +443,14 @@ class MustFlow:
 
     def _atom(self, c, truth):
         """atom_facts plus predicate wrappers (`has_search()` = `query.has_value()`)."""
+        # a negated compound condition is branched on as a whole (`if (!(a && b)) return;`): its false edge establishes both
+        # conjuncts, and dually for a disjunction known false
+        e1, neg1 = _neg(c)
+        if isinstance(e1, dict) and e1.get("k") == "bin" and e1.get("op") in ("&&", "||"):
+            t1 = truth != neg1
+            if (e1["op"] == "&&" and t1) or (e1["op"] == "||" and not t1):
+                return self._atom(e1["l"], t1) | self._atom(e1["r"], t1)
+            return set()
         out = set(atom_facts(c, truth))
         e0, neg = _neg(c)
         t = truth != neg
